@@ -1,8 +1,10 @@
 import SaphyrVerif.Model.Entry
 /-!
-Helper lemmas for C11, part 10: the witness against unconditional termination of the iterator.  A stray
-container-end event at a document root is accepted by `deserialize_unit` (and `deserialize_option`)
-without being consumed, so the iterator yields `Ok(())` for ever.
+Helper lemmas for C11, part 10: regression facts for the two former witnesses against termination of the
+iterator.  Before the repair a container-end event at a document root was handed to `deser`, where
+`deserialize_unit` / `deserialize_option` accept it without consuming it (the iterator yielded the same item
+for ever).  Now the iterator (and the batch loop) report `UnexpectedSequenceEnd` / `UnexpectedMappingEnd`
+and recover at the next document.
 -/
 namespace SaphyrVerif.Lemmas.C11
 open SaphyrVerif SaphyrVerif.Scalars SaphyrVerif.Pump SaphyrVerif.De SaphyrVerif.Entry
@@ -14,33 +16,11 @@ def cexStuck : Pump := { limits := cexLimits, look := some (.seqEnd 1), lastLoc 
 
 theorem cex_peek0 : Cur.peek (.live cexPump [.ev .seqEnd 1]) = .ok (some (.seqEnd 1)) (.live cexStuck []) := by
   rfl
-theorem cex_peek : Cur.peek (.live cexStuck []) = .ok (some (.seqEnd 1)) (.live cexStuck []) := by
-  rfl
-theorem cex_deser : deser (fuelFor 100000) {} .unit false false (.live cexStuck []) = .ok .unit (.live cexStuck []) := by
-  rw [show fuelFor 100000 = 6499999 + 1 from rfl]
-  simp only [deser, cex_peek]
 
-theorem cex_loop : ∀ m acc, (iterLoop {} .unit m cexStuck [] acc).length = acc.length + m := by
-  intro m
-  induction m with
-  | zero => intro acc; simp [iterLoop]
-  | succ m ih =>
-    intro acc
-    simp only [iterLoop, cex_peek, cex_deser, Bool.false_eq_true, if_false]
-    rw [ih]
-    simp
-    omega
-theorem cex_loop0 : ∀ m, (iterLoop {} .unit (m + 1) cexPump [.ev .seqEnd 1] []).length = m + 1 := by
-  intro m
-  simp only [iterLoop, cex_peek0, cex_deser, Bool.false_eq_true, if_false]
-  rw [cex_loop]
-  simp
-  omega
-
-/-! A second witness on a WELL-FORMED stream: the single document `[[]]` read as `Option<()>`-like
-(`option (tuple [])`).  The zero-length tuple visitor stops after each `[` without reading on; the third
-`next` of the iterator then peeks the closing `]` of the outer sequence, which `deserialize_option`
-turns into `None` without consuming it — for ever. -/
+/-- first former witness (a stray `]` read as `()`): one error item, then the iterator stops -/
+theorem cex_now (m : Nat) :
+    iterLoop {} .unit (m + 1) cexPump [.ev .seqEnd 1] [] = [.error ⟨"UnexpectedSequenceEnd", 1, 0⟩] := by
+  simp [iterLoop, cex_peek0, Pump.skipToNextDocument, skipLoop]
 
 /-- the parser items of the one-document stream `[[]]` -/
 def wfItems : List RawItem :=
@@ -53,25 +33,7 @@ def wfMid : Pump := { limits := cexLimits, lastLoc := 12, producedAny := true }
 /-- the outer `]` sits in the look-ahead -/
 def wfStuck : Pump := { limits := cexLimits, look := some (.seqEnd 19), lastLoc := 19, producedAny := true }
 
-theorem wf_peek : Cur.peek (.live wfStuck wfRest) = .ok (some (.seqEnd 19)) (.live wfStuck wfRest) := rfl
 theorem wf_peek_mid : Cur.peek (.live wfMid (.ev .seqEnd 19 :: wfRest)) = .ok (some (.seqEnd 19)) (.live wfStuck wfRest) := rfl
-
-theorem wf_deser :
-    deser (fuelFor 100000) {} wfTy false false (.live wfStuck wfRest) = .ok .none (.live wfStuck wfRest) := by
-  rw [show fuelFor 100000 = 6499999 + 1 from rfl]
-  simp only [wfTy, deser, wf_peek]
-  rfl
-
-theorem wf_loop : ∀ m acc, (iterLoop {} wfTy m wfStuck wfRest acc).length = acc.length + m := by
-  intro m
-  induction m with
-  | zero => intro acc; simp [iterLoop]
-  | succ m ih =>
-    intro acc
-    simp only [iterLoop, wf_peek, wf_deser, Bool.false_eq_true, if_false]
-    rw [ih]
-    simp
-    omega
 
 theorem wf_prefix (m : Nat) (acc : List (Except DErr Val)) :
     iterLoop {} wfTy (m + 2) cexPump wfItems acc =
@@ -81,11 +43,21 @@ theorem wf_prefix (m : Nat) (acc : List (Except DErr Val)) :
     Pump.next, nextImpl, serveInject, parserLoop, Pump.resetDocumentState, deser, deserSeqLike, tupleElems, tagCode,
     recordAll, record, bumpDepthOnStart, bumpDepthOnEnd, finalizeFrames, Ev.loc]
 
-theorem wf_loop0 (m : Nat) : (iterLoop {} wfTy (m + 3) cexPump wfItems []).length = m + 3 := by
+/-- second former witness (the well-formed document `[[]]` read as `Option<()>`-like): two values, then the
+outer `]` is reported as an error item, the rest of the document is skipped and the iterator stops -/
+theorem wf_now (m : Nat) :
+    iterLoop {} wfTy (m + 3) cexPump wfItems [] =
+      [.ok (.some (.seq [])), .ok (.some (.seq [])), .error ⟨"UnexpectedSequenceEnd", 19, 0⟩] := by
   rw [wf_prefix (m + 1) []]
-  simp only [iterLoop, wf_peek_mid, wf_deser, Bool.false_eq_true, if_false]
-  rw [wf_loop]
-  simp
-  omega
+  simp only [iterLoop, wf_peek_mid]
+  simp [wfRest, wfStuck, Pump.skipToNextDocument, skipLoop]
+
+/-- the batch entry point on the same input: the error instead of a run that only ends with the fuel -/
+theorem wf_batch_now :
+    fromMultiple {} wfTy cexPump wfItems = .error ⟨"UnexpectedSequenceEnd", 19, 0⟩ := by
+  have hf : fuelFor 100000 = 6499998 + 1 + 1 := rfl
+  simp [fromMultiple, multiLoop, hf, cexLimits, wfTy, wfItems, cexPump, Cur.peek, Pump.peek, Cur.next,
+    Pump.next, nextImpl, serveInject, parserLoop, Pump.resetDocumentState, deser, deserSeqLike, tupleElems, tagCode,
+    recordAll, record, bumpDepthOnStart, bumpDepthOnEnd, finalizeFrames, Ev.loc]
 
 end SaphyrVerif.Lemmas.C11
